@@ -121,6 +121,15 @@ CHECKS = {
          "re-statement of the intended keys, not from the code under test -- are excluded from the clause they break.",
          "Trusted: the exact evaluator and the re-statement of the intended sort keys in props/C11.py; note that canonicalize() sorts any supplied ordering by name, so the effective ordering is always alphabetical",
          "bounded run-time check only (no contract discharged)", "DESIGN.md §5 C11"),
+ "C19": ("other", "Proved for all graphs and variables (relations + a small algebra of Variable objects: base variable, subscript relation, plain variable of the same name): "
+         "minimize_counterfactual returns a variable with the same base whose subscripts are exactly those of x that lie in An(Y) of G with the edges into X removed, a counterfactual "
+         "variable iff that set is non-empty and otherwise the plain variable -- in particular the constructor's ValueError for an empty subscript set is unreachable; same_district "
+         "is true iff all base variables lie in one bidirected-connectivity class. Bounded stand-in (labelled): minimisation and the Def. 2.1 ancestors against independent "
+         "re-implementations on every ADMG with 2-3 nodes and sampled 3-4 node ADMGs x every counterfactual variable with <= 2 subscripts; SIMPLIFY against a functional-SCM oracle "
+         "(None only for probability-zero events, otherwise equal probability, no ill-formed variable) outside the input class of one open known finding. Not covered: the ancestral "
+         "components and the counterfactual-factor factorisation.",
+         TRUST + "; data invariants of Variable / Intervention / CounterfactualVariable as axioms of the Variable algebra (y0vc/logic.py var_algebra); trusted mathematics: Correa, Lee & Bareinboim 2022",
+         TECH + " (minimisation, district test) + bounded checks against re-implemented definitions and a functional-SCM oracle", "DESIGN.md §5 C19"),
 }
 NA = {
  "C07": "not claimed: on the unchanged tree ID* violates the property, under the reading the property itself fixes, on a broad class that no contract within reach delimits -- 305 of 1,318 "
